@@ -180,7 +180,7 @@ def umul(a, b):
         return a
     sid = SV(UMUL(a.sid.t, b.sid.t), "i")
     u = Unit(sid, label="(%s*%s)" % (a.label, b.label))
-    if _once(("umul", a.sid.t.get_id(), b.sid.t.get_id())):
+    if _once(("umul", core.tid(a.sid.t), core.tid(b.sid.t))):
         p = cur()
         p.add(SCALE(sid.t) == SCALE(a.sid.t) * SCALE(b.sid.t))
         p.add(SCALE(sid.t) > 0)
@@ -198,7 +198,7 @@ def udiv(a, b):
         return a
     sid = SV(UDIV(a.sid.t, b.sid.t), "i")
     u = Unit(sid, label="(%s/%s)" % (a.label, b.label))
-    if _once(("udiv", a.sid.t.get_id(), b.sid.t.get_id())):
+    if _once(("udiv", core.tid(a.sid.t), core.tid(b.sid.t))):
         p = cur()
         p.add(SCALE(sid.t) * SCALE(b.sid.t) == SCALE(a.sid.t))
         p.add(SCALE(sid.t) > 0)
@@ -236,7 +236,7 @@ def upow(a, k):
     kt = core.rv(fk)
     sid = SV(UPOW(a.sid.t, kt), "i")
     u = Unit(sid, label="(%s**%s)" % (a.label, fk))
-    if _once(("upow", a.sid.t.get_id(), str(fk))):
+    if _once(("upow", core.tid(a.sid.t), str(fk))):
         p = cur()
         s, sa = SCALE(sid.t), SCALE(a.sid.t)
         p.add(s > 0)
